@@ -120,20 +120,21 @@ inductive StepRel (cfg : Cfg) (s : State) : Label → State → Prop
       StepRel cfg s .take
         { s with queue := q, idle := s.idle - 1
                  futs := s.futs.set j .running
-                 tasks := s.tasks.set (cfg.jobStarts.getD j 0) .cbAcq }
+                 tasks := s.tasks.set (cfg.jobStarts.getD j 0) .tAcq }
   | exit : s.queue = [] → s.shutdown = true → s.idle > 0 →
       StepRel cfg s .exit { s with idle := s.idle - 1, exited := s.exited + 1 }
   | cbAcq (i : Nat) : s.tasks[i]? = some .cbAcq → s.cbLock = false →
       StepRel cfg s (.task i) { s with cbLock := true, tasks := s.tasks.set i .cbBody }
   | cbFail (i : Nat) : s.tasks[i]? = some .cbBody → cfg.cbFails i = true →
       StepRel cfg s (.task i)
-        (finishTask cfg { s with log := s.log ++ [i], cbLock := false } i false)
+        (finishTask cfg { s with log := s.log ++ [i], cbLock := false
+                                 tLocks := s.tLocks.set (cfg.obj i) false } i false)
   | cbOk (i : Nat) : s.tasks[i]? = some .cbBody → cfg.cbFails i = false →
       StepRel cfg s (.task i)
-        { s with log := s.log ++ [i], cbLock := false, tasks := s.tasks.set i .tAcq }
+        { s with log := s.log ++ [i], cbLock := false, tasks := s.tasks.set i .bAcq }
   | tAcq (i : Nat) : s.tasks[i]? = some .tAcq → s.tLocks.getD (cfg.obj i) false = false →
       StepRel cfg s (.task i)
-        { s with tLocks := s.tLocks.set (cfg.obj i) true, tasks := s.tasks.set i .bAcq }
+        { s with tLocks := s.tLocks.set (cfg.obj i) true, tasks := s.tasks.set i .cbAcq }
   | bTry (i : Nat) (p : Pc) : s.tasks[i]? = some p → (p = .bAcq ∨ p = .woken) →
       StepRel cfg s (.task i) (budgetTry cfg s i)
   | writeFail (i : Nat) : s.tasks[i]? = some .write → cfg.fails i = true →
@@ -199,21 +200,21 @@ theorem stepRel_of_step {cfg : Cfg} {s s' : State} {l : Label} (h : step cfg s l
       · rename_i hp
         split at h
         · simp at h
-        · simp at h; subst h; rename_i hc; exact .cbAcq i hp (by simpa using hc)
-      · rename_i hp
-        split at h
-        · simp at h; subst h; exact .cbFail i hp ‹_›
-        · simp at h; subst h; rename_i hc; exact .cbOk i hp (by simpa using hc)
+        · rename_i hc; simp at h; subst h; exact .tAcq i hp (by simpa using hc)
       · rename_i hp
         split at h
         · simp at h
-        · simp at h; subst h; rename_i hc; exact .tAcq i hp (by simpa using hc)
+        · rename_i hc; simp at h; subst h; exact .cbAcq i hp (by simpa using hc)
+      · rename_i hp
+        split at h
+        · simp at h; subst h; exact .cbFail i hp ‹_›
+        · rename_i hc; simp at h; subst h; exact .cbOk i hp (by simpa using hc)
       · rename_i hp; simp at h; subst h; exact .bTry i _ hp (Or.inl rfl)
       · rename_i hp; simp at h; subst h; exact .bTry i _ hp (Or.inr rfl)
       · rename_i hp
         split at h
         · simp at h; subst h; exact .writeFail i hp ‹_›
-        · simp at h; subst h; rename_i hc; exact .writeOk i hp (by simpa using hc)
+        · rename_i hc; simp at h; subst h; exact .writeOk i hp (by simpa using hc)
       · rename_i ok hp; simp at h; subst h; exact .bRel i ok hp
       · simp at h
 
